@@ -45,7 +45,8 @@ CONSTANTS
   Conn,        \* the claim and the XR publish connection secrets
   MaxVers,     \* bound on stored claim versions
   MaxEnv, MaxFaults, MaxRecs, MaxStale, MaxCollide,
-  MidEnv       \* TRUE: the environment may also act between two calls of a reconcile
+  MidEnv,      \* TRUE: the environment may also act between two calls of a reconcile
+  Rebinds      \* TRUE: an administrator may move the bound XR to another claim
 
 None == "none"
 Range(s) == {s[i] : i \in 1..Len(s)}
@@ -192,7 +193,15 @@ UserDeleteXR(x) ==
   /\ xrs' = [xrs EXCEPT ![x] = IF @.fin \/ @.fgf THEN [@ EXCEPT !.del = TRUE] ELSE NoXR]
   /\ Log(E("delxr", x)) /\ UNCHANGED <<vers, gone, fg>> /\ EnvUnch(x)
 
-Env == UserDeleteClaim \/ \E x \in Names : XrCtl(x) \/ XrFinalize(x) \/ UserDeleteXR(x)
+\* an administrator moves the XR to another claim (re-points its claimRef): from now on it is that claim's XR
+Rebind(x) ==
+  \* (only between two reconciles of the claim: a re-pointing that lands between a reconcile's read of the XR and its
+  \* unconditional Delete / forced apply cannot be noticed by any claim controller and is outside C06's quantifier)
+  /\ Rebinds /\ EnvOk /\ pc = "idle" /\ xrs[x].ex /\ xrs[x].cref = "this" /\ ~xrs[x].del
+  /\ xrs' = [xrs EXCEPT ![x].cref = "other"]
+  /\ Log(E("rebind", x)) /\ UNCHANGED <<vers, gone, fg>> /\ EnvUnch(x)
+
+Env == UserDeleteClaim \/ \E x \in Names : XrCtl(x) \/ XrFinalize(x) \/ UserDeleteXR(x) \/ Rebind(x)
 
 ----------------------------------------------------------------------------
 (* The reconcile.  Outcomes of a call: "ok" (whatever the server answers), *)
